@@ -1,11 +1,14 @@
 package schist
 
 import (
+	"encoding/hex"
 	"fmt"
 	"strings"
 
+	"0chain.net/chaincore/state"
 	"0chain.net/chaincore/transaction"
 	"0chain.net/core/config"
+	"0chain.net/core/encryption"
 	"0chain.net/smartcontract/dbs/event"
 	"0chain.net/smartcontract/minersc"
 	"0chain.net/smartcontract/storagesc"
@@ -325,7 +328,7 @@ func monC04(h *Hist, o *TxnObs) {
 			// signed transfer covering it?
 			var covered uint64
 			for _, st := range o.STr {
-				if st.ClientID == id && st.VerifySignature(true) == nil {
+				if st.ClientID == id && signedTransferValidC04(st) {
 					covered += uint64(st.Amount)
 				}
 			}
@@ -344,6 +347,25 @@ func monC04(h *Hist, o *TxnObs) {
 			r.Count("debit_kind_"+kind, 1)
 		}
 	}
+}
+
+// signedTransferValidC04 checks a signed transfer with the signature primitives only (a fresh scheme object, the hash of THIS
+// transfer's encoding, the key that hashes to the debited account's id) - not with SignedTransfer.VerifySignature, whose verdict
+// is the thing being judged.
+func signedTransferValidC04(st *state.SignedTransfer) bool {
+	if !encryption.IsValidSignatureScheme(st.SchemeName) {
+		return false
+	}
+	pk, err := hex.DecodeString(st.PublicKey)
+	if err != nil || encryption.Hash(pk) != st.ClientID {
+		return false
+	}
+	sch := encryption.GetSignatureScheme(st.SchemeName)
+	if sch.SetPublicKey(st.PublicKey) != nil {
+		return false
+	}
+	ok, err := sch.Verify(st.Sig, encryption.Hash(st.Transfer.Encode()))
+	return err == nil && ok
 }
 
 // CoreMonitors are always on.
